@@ -702,6 +702,11 @@ def directed_sem_cases(consts):
     for tg in (["n1"], ["n0", "n2"], ["n0", "n1", "n2"]):
         one({"on_ranged": 'send "ON_RANGED %s\\n"\n\t\texpect "ok\\n"\n\t\tforeachplug {\n\t\t\tsend "FP %s\\n"\n\t\t\texpect "ok\\n"\n\t\t}\n\t\tforeachnode {\n\t\t\tsend "FN %s 100%%\\n"\n\t\t}\n\t\texpect "done\\n"'},
             mixed, "on", tg, [None, None, "ok\n", None] + [None, "ok\n", None] * 3 + [None] * 8 + ["done\n", None, None])
+    # ranged script whose %s is a plug expression of 80 characters and more (names that do not compress): the first attempt at a fixed size has to grow
+    longp = [("%s-outlet-%d" % (w, k), "n%d" % k) for k, w in enumerate(["alpha", "bravo", "charlie", "delta", "echo", "foxtrot", "golf", "hotel", "india", "juliett"])]
+    for tg in (["n%d" % k for k in range(10)], ["n%d" % k for k in range(0, 10, 2)] + ["n7"], ["n1", "n2", "n3", "n4", "n5", "n6"]):
+        one({"on_ranged": 'send "ON_RANGED %s\\n"\n\t\texpect "ok\\n"\n\t\tforeachplug {\n\t\t\tsend "FP %s\\n"\n\t\t}\n\t\texpect "done\\n"'},
+            longp, "on", tg, [None, None, "ok\n", None] + [None] * 12 + ["done\n", None, None])
     # captures that matched the EMPTY string: an empty plug name names no plug (no fallback to the target); an empty status is recorded
     for reply in ["plug : on\n", "plug p2: \n", "plug p1: on\n", "plug zz: off\n", "plug u1: on\n"]:
         one({"status": 'send "STATUS %s\\n"\n\t\texpect "plug ([a-z0-9]*): ([a-z]*)\\n"\n\t\tsetplugstate $1 $2 off="x*" on="on"\n\t\texpect "done\\n"'},
